@@ -43,10 +43,12 @@ def position(st):
             idx = 10 ** 6
         elif e[0] == "new_line":
             line, idx = line + 1, 0
+        elif e[0] == "caret" and e[1]:
+            idx += e[2]      # a ^^ reduction: the second ^ (and the first, if it had only been peeked) is consumed
     return line, idx
 
 
-def obligation(line_lens, report_eol, tier="quick"):
+def obligation(line_lens, report_eol, tier="quick", carets=False):
     n_lines = len(line_lens)
 
     def build(sym, bind):
@@ -121,8 +123,31 @@ def obligation(line_lens, report_eol, tier="quick"):
         return [(st, tm.FALSE)]
 
     def env_caret(ex, m, args, tys, st, fn, symargs):
-        st.log.append(("caret?",))
-        return [(st, tm.FALSE)]
+        """maybe_apply_caret_notation(char_1, char_1_consumed): contract of the character source - it may answer true only if
+        two more characters follow the first ^ on the line; it then consumes the second ^ (and the first one if it had only
+        been peeked) and leaves the reduced character as the next one (with whatever category code that character has)."""
+        consumed = args[2]
+        if not consumed.is_const:
+            raise Unsupported("symbolic char_1_consumed")
+        line, idx = position(st)
+        adv = 1 if consumed.val else 2
+        room = line < n_lines and idx + adv < line_lens[line]
+        k = sum(1 for e in st.log if e[0] == "caret")
+        if not room or not carets:
+            st.log.append(("caret", False, 0))
+            return [(st, tm.FALSE)]
+        c = symargs.get("consts")
+        if c is not None:
+            ans = bool(c.get(f"caret{k}", 0))
+            st.log.append(("caret", ans, adv if ans else 0))
+            return [(st, tm.B(ans))]
+        v = tm.V(f"caret{k}", "B")
+        s2 = st.fork()
+        st.assume(v)
+        st.log.append(("caret", True, adv))
+        s2.assume(tm.not_(v))
+        s2.log.append(("caret", False, 0))
+        return [(st, tm.TRUE), (s2, tm.FALSE)]
 
     def env_intern(ex, m, args, tys, st, fn, symargs):
         s = args[1]
@@ -132,10 +157,21 @@ def obligation(line_lens, report_eol, tier="quick"):
         return [(st, Agg([Agg([I(5000 + k)])]))]
 
     # ---- the reference: TeX.2021.343-356 on concrete category codes
-    def reference(cat, state, fls):
-        """cat(line, idx) -> int. Returns (result, payload, new state or None if irrelevant, (line, idx), first_line_started)."""
+    def reference(cat, state, fls, answers):
+        """cat(line, idx) -> int; answers: the character source's answers to 'is this ^ the start of a ^^ reduction?' in order.
+        Returns (result, payload, new state or None if irrelevant, (line, idx), first_line_started)."""
         line, idx = 0, 0
         ended = False
+
+        def reduces(adv):
+            """TeX.2021.352/355: a superscript character may start a ^^ reduction; the source says whether it does."""
+            nonlocal idx
+            if not answers:
+                raise KeyError("caret")
+            ans, a_ = answers.pop(0)
+            if ans:
+                idx += a_
+            return ans
 
         def at_end():
             return ended or line >= n_lines or idx >= line_lens[line]
@@ -154,15 +190,25 @@ def obligation(line_lens, report_eol, tier="quick"):
             here = (line, idx)
             idx += 1
             if c == ESCAPE:
-                if at_end():
-                    return ("Token", ("cs", ()), None, (line, idx), fls)     # the empty control sequence; state irrelevant
-                c1 = cat(line, idx)
-                name = [(line, idx)]
-                idx += 1
+                while True:
+                    if at_end():
+                        return ("Token", ("cs", ()), None, (line, idx), fls)     # the empty control sequence; state irrelevant
+                    c1 = cat(line, idx)
+                    name = [(line, idx)]
+                    idx += 1
+                    if c1 == SUP and reduces(1):
+                        continue                 # the reduced character starts the name (TeX.2021.355)
+                    break
                 if c1 == LETTER:
-                    while not at_end() and cat(line, idx) == LETTER:
-                        name.append((line, idx))
-                        idx += 1
+                    while not at_end():
+                        c2 = cat(line, idx)
+                        if c2 == LETTER:
+                            name.append((line, idx))
+                            idx += 1
+                        elif c2 == SUP and reduces(2):
+                            continue             # ^^ notation inside a name (TeX.2021.356)
+                        else:
+                            break
                     return ("Token", ("cs", tuple(name)), SKIPBLANKS, (line, idx), fls)
                 return ("Token", ("cs", tuple(name)), SKIPBLANKS if c1 == SPACE else MIDLINE, (line, idx), fls)
             if c == EOL:
@@ -185,6 +231,8 @@ def obligation(line_lens, report_eol, tier="quick"):
                 return ("Invalid", here, state, (line, idx), fls)
             if c == ACTIVE:
                 return ("Token", ("active", here), MIDLINE, (line, idx), fls)
+            if c == SUP and reduces(1):
+                continue                         # TeX.2021.352: reduce and scan again
             return ("Token", (PLAIN[c], here), MIDLINE, (line, idx), fls)
 
     def post(a, ret, st):
@@ -204,7 +252,13 @@ def obligation(line_lens, report_eol, tier="quick"):
                         missing.append((l, i))
                         return OTHER
                     return cats[(l, i)]
-                res, pay, s1, p1, f1 = reference(cat, s0, f0)
+                answers = [(e[1], e[2]) for e in st.log if e[0] == "caret"]
+                try:
+                    res, pay, s1, p1, f1 = reference(cat, s0, f0, answers)
+                except KeyError:
+                    continue  # the reference asks the source about a ^ the implementation never asked about
+                if answers:
+                    continue  # the implementation asked about a ^ that TeX's scanner would not have looked at
                 if missing:
                     continue  # the reference needs a character the implementation never looked at on this path
                 cond = [tm.eq(a["state"], I(s0)), a["fls"] if f0 else tm.not_(a["fls"])]
@@ -267,20 +321,22 @@ def obligation(line_lens, report_eol, tier="quick"):
                     disj.append(tm.and_(*cond))
         return tm.or_(*disj) if disj else tm.FALSE
 
-    name = "c03_lexer_next_lines_" + "_".join(str(n) for n in line_lens) + ("_eol" if report_eol else "")
+    name = "c03_lexer_next_lines_" + "_".join(str(n) for n in line_lens) + ("_eol" if report_eol else "") + ("_carets" if carets else "")
     return dict(engine="B", name=name, crates=["texlang"], fn=("texlang", "next", "Lexer", None), args=[], tier=tier, build_args=build, unroll=sum(line_lens) + n_lines + 6,
                 max_paths=400000, post=post, post_state=True,
                 env_models=[(r"^RawLexer::next::<.*>$", env_raw_next), (r"^RawLexer::peek::<.*>$", env_raw_peek), (r"^RawLexer::advance$", env_advance),
                             (r"^RawLexer::end_line$", env_end_line), (r"^RawLexer::start_new_line::<.*>$", env_start_new_line),
                             (r"^RawLexer::maybe_apply_caret_notation$", env_caret), (r"^Interner::<.*>::get_or_intern$", env_intern)],
                 witnesses=[("a control word", lambda a: tm.and_(tm.eq(a["cats"][0][0], I(ESCAPE)), tm.eq(a["cats"][0][1], I(LETTER)))),
-                           ("a space in mid-line state", lambda a: tm.and_(tm.eq(a["cats"][0][0], I(SPACE)), tm.eq(a["state"], I(MIDLINE))))] if line_lens[0] >= 2 else [],
+                           ("a space in mid-line state", lambda a: tm.and_(tm.eq(a["cats"][0][0], I(SPACE)), tm.eq(a["state"], I(MIDLINE))))]
+                          + ([("a ^^ reduction inside a control word", lambda a: tm.and_(tm.eq(a["cats"][0][0], I(ESCAPE)), tm.eq(a["cats"][0][1], I(LETTER)), tm.eq(a["cats"][0][2], I(SUP)), tm.V("caret0", "B")))]
+                             if carets and line_lens[0] >= 5 else []) if line_lens[0] >= 2 else [],
                 funcs=["texlang::token::lexer::Lexer::next and Lexer::read_control_sequence (generic MIR; RawLexer (character source) and the control-sequence interner replaced by stubs; Token constructors from the dump)"],
                 bound=(f"one call of Lexer::next from an arbitrary scanner state (new line / mid line / skip blanks, first_line_started arbitrary, report_end_of_line={bool(report_eol)}) with "
                        f"{list(line_lens)} characters left on the current and following lines, every character and every category code (0..15) arbitrary: the result, the token (kind, character, control-sequence "
                        "name as the characters handed to the interner, trace key of its first character), the new state and the characters consumed are those of TeX.2021.343-356"),
                 assumes=["RawLexer is a stub with the contract: next/peek/advance walk the current line, end_line drops its rest, start_new_line moves to the next line if there is one; "
-                         "maybe_apply_caret_notation answers false (no ^^ notation in these inputs)", "the interner is a stub that records the name it is given"])
+                         "maybe_apply_caret_notation answers false, except in the `_carets` obligations where it may answer true whenever two more characters follow on the line (it then consumes the second ^ - and the first, if only peeked - and leaves the reduced character, of arbitrary category, next)", "the interner is a stub that records the name it is given"])
 
 
 PROP = {
@@ -288,7 +344,7 @@ PROP = {
     "level_text": ("Decided at driver level: one call of Lexer::next (with read_control_sequence) from an arbitrary scanner state over a stubbed character source, for every category-code and character "
                    "assignment of up to 5 (thorough 7) pending characters on up to 3 lines: which spaces and line ends become space tokens or \\\\par, how control sequences are delimited and which state follows, "
                    "comment / ignored / invalid characters, end of line and end of input reporting (TeX.2021.343-356). One step from an arbitrary state covers token sequences of any length by induction "
-                   "over calls. NOT decided: RawLexer (splitting the source into lines, right-trimming, \\\\endlinechar, ^^ notation), the tracer (line/column reports, key exhaustion), the interner."),
+                   "over calls. NOT decided: RawLexer (splitting the source into lines, right-trimming, \\\\endlinechar, the arithmetic of a ^^ reduction - only the scanner's reaction to one is), the tracer (line/column reports, key exhaustion), the interner."),
     "explanation": "Lexer::next is executed from its generic MIR against a character-source stub that forks on the category code of each character it hands out; the post-condition is a transcription of TeX's get_next on the same codes.",
     "outside": [
         "RawLexer::start_new_line / end_line / maybe_apply_caret_notation (line splitting, right-trimming of spaces, \\\\endlinechar, ^^ notation also inside names): string-bound, NOT decided",
@@ -298,5 +354,7 @@ PROP = {
     "assumptions": ["character source and interner stubbed (contract in the evidence)"],
     "obligations": [obligation(l, e) for l, e in [((2,), False), ((3,), False), ((4,), False), ((5,), False), ((1, 1), False), ((1, 1), True), ((2, 1), False), ((0, 2), True), ((0, 2), False),
                                                    ((1, 0, 1), True), ((2, 2), True), ((3, 1), False), ((1, 2, 1), True), ((3, 2), False), ((0, 0, 2), True)]]
-                   + [obligation(l, e, tier="thorough") for l, e in [((6,), False), ((4, 2), False), ((2, 2, 2), True), ((3, 3), True), ((7,), False)]],
+                   + [obligation(l, e, carets=True) for l, e in [((3,), False), ((4,), False), ((5,), False), ((3, 1), True)]]
+                   + [obligation(l, e, tier="thorough") for l, e in [((6,), False), ((4, 2), False), ((2, 2, 2), True), ((3, 3), True), ((7,), False)]]
+                   + [obligation((6,), False, tier="thorough", carets=True)],
 }
